@@ -228,6 +228,16 @@ func init() {
 		p.assume(True(), p.typeInv(st, types.Typ[types.String], Scalar{r}))
 		return Scalar{r}
 	})
+	for _, k := range []string{"path/filepath.ToSlash", "path/filepath.FromSlash", "path/filepath.Clean"} {
+		fname := "fp." + k[len("path/filepath."):]
+		reg(k, "a function of its argument (content uninterpreted)", func(fr *Frame, in ssa.Instruction, st *State, args []Value, rt types.Type) Value {
+			B.DeclareFun(fname, []string{SStr}, SStr)
+			r := B.App(fname, SStr, sTerm(args[0]))
+			fr.p.assume(True(), fr.p.typeInv(st, types.Typ[types.String], Scalar{r}))
+			return Scalar{r}
+		})
+		libEffTable[k] = noEffect
+	}
 	reg("path/filepath.Base", "returns a string", func(fr *Frame, in ssa.Instruction, st *State, args []Value, rt types.Type) Value {
 		return freshStr(fr.p, st, "base")
 	})
